@@ -601,6 +601,9 @@ class TypedNode(Node):
             data = {
                 "str": node_data,
             }
+            # Keep a custom data_id (as Node._make_list_entry() does)
+            if node._data_id != hash(node_data):
+                data["data_id"] = node._data_id
         else:
             data = Node._make_list_entry(node)
 
@@ -685,7 +688,7 @@ class TypedTree(Tree):
     @staticmethod
     def deserialize_mapper(parent: Node, data: dict) -> str | object | None:
         """Used as default `mapper` argument for :meth:`load`."""
-        if "str" in data and len(data) <= 2:
+        if "str" in data and not (set(data) - {"str", "kind", "data_id"}):
             # This can happen if the source was generated without a
             # serialization mapper, for a TypedTree that has pure str nodes
             return data["str"]
